@@ -15,6 +15,19 @@ CLAIMED = {
    note=TRUST + "Config.v is a hand-written model of config.py tied by running histories through model and real API in fresh interpreters.",
    technique="Coq proof by induction over API histories (invariant), generated option table, differential correspondence",
    ref="5/C10"),
+ "C07": dict(
+   text="Theorems over the whole-converter model with an event semantics of the emitted expression forms (EvalOrder.v): "
+        "C07_assign_order - for every assignment with ANY number of name/attribute/subscript targets whose operand expressions the "
+        "rewriting leaves unchanged, the emitted expressions evaluate the value exactly once and first, then each target's object and "
+        "index, targets left to right; C07_augassign_name/attr/sub_order - for every operator, target object (and index) once, then "
+        "the value, the store re-using the saved object/index; C07_def_order - any decorators and defaults: decorators top-down, then "
+        "positional, then keyword-only defaults, once each. Destructuring targets, class headers, loop/if headers, return values, call "
+        "arguments and all other forms are decided by ordered probe logs (templates for every form in the property's list plus random "
+        "probe programs in which every operation on a probe value is logged) under the configurations - support, not theorem. "
+        "Two known findings (class decorators evaluated late; annotations not evaluated).",
+   note=TRUST + "EvalOrder.v's event semantics (left-to-right evaluation of the emitted expression forms; reference orders from the language reference 6.16/7.2/8.7) is a hand-written model of CPython validated by the probe logs. Implicit truth tests (__bool__) are not compared (CPython elides them itself in jump contexts).",
+   technique="Coq proof over the converter model with a syntactic event semantics (induction over target/decorator lists) + AST correspondence + ordered probe-log differential execution",
+   ref="5/C07"),
  "C13": dict(
    text="Theorems C13_unpack_tuple/_list: for every flat target list with at most one starred name, every source length Python "
         "accepts and every value type, the accessors the converter emits (t[i], list(t[s:s-n+1 or None]), t[i-n] over tuple(value)) "
